@@ -22,6 +22,7 @@ RULE = (
     'min(exp(mean), threshold), minmax-energy = maximum voxel energy.  Non-trivial = a returned path of at least 3 '
     'voxels on a grid with blocked voxels; distinct = SHA-1 of (grid, request).'
 )
+RULE += ' Added in rounds 6-9: walls exactly at / one ulp around the threshold, inf and NaN; Fortran-ordered grids; two mutually disconnected percolating networks; peaks on blocked voxels or isolated pockets listed anywhere in the peak list.'
 ASSUMPTIONS = [
     'costs compared at relative tolerance 1e-9',
     'K3 (4 corner moves missing) tolerated only if the cost equals the optimum over GEMDAT\'s 22-move set and exceeds the 26-move optimum',
